@@ -153,6 +153,12 @@ def run_list_prop(prop, tier, seed, only_kinds=None, harness_variant='std', coll
                         jobs.append(dict(kind=ro['kind'], inst=ro, variant=variant, random_only=True))
         flags = spec['flags']
         log('[%s] %d jobs, tier %s' % (prop, len(jobs), tier))
+        # (D) unbounded step: Apalache proves the numeric bounds inductive on the length abstractions (all sizes)
+        apa_future = None
+        if prop in ('C01', 'C09') and collect is None and os.environ.get('VERIF_NO_APALACHE') is None:
+            from concurrent.futures import ThreadPoolExecutor
+            apa_pool = ThreadPoolExecutor(max_workers=5)
+            apa_future = [apa_pool.submit(vlib.apalache_inductive, vlib.LEN_MODULES[k][0], vlib.LEN_MODULES[k][1], work.dir) for k in kinds]
         vlib.pool_map(lambda j: stage_generate(j, work, binary, flags, seed, j['variant']), jobs, 4)
         for j in jobs:
             if j['exec']['rc'] != 0:
@@ -175,7 +181,14 @@ def run_list_prop(prop, tier, seed, only_kinds=None, harness_variant='std', coll
                 j['samples'] = sample_records(j)
             collect.append((jobs, viols))
             return 0
-        return finish(prop, tier, seed, jobs, viols, t0, work)
+        proofs = None
+        if apa_future:
+            proofs = [f.result() for f in apa_future]
+            bad = [p for p in proofs if p['discharged'] != p['obligations']]
+            if bad:
+                raise ToolError('Apalache could not discharge the inductive invariant of %s:\n%s' % (bad[0]['module'], bad[0].get('output_tail')))
+            log('[%s] Apalache: %d inductive obligations discharged (%s)' % (prop, sum(p['discharged'] for p in proofs), ', '.join(p['module'] for p in proofs)))
+        return finish(prop, tier, seed, jobs, viols, t0, work, proofs)
     finally:
         work.cleanup()
 
@@ -188,7 +201,7 @@ def sample_records(j, n=3):
     return None
 
 
-def finish(prop, tier, seed, jobs, viols, t0, work):
+def finish(prop, tier, seed, jobs, viols, t0, work, proofs=None):
     new = []
     for d in viols:
         k = vlib.match_known(prop, d)
@@ -223,6 +236,12 @@ def finish(prop, tier, seed, jobs, viols, t0, work):
         events_by_op_and_result=by_kind,
         violations_seen=[dict(kind=d.get('kind'), instance=d.get('instance'), op=d.get('op'), path=d.get('path')) for d in viols[:20]],
     )
+    if proofs:
+        coverage['unbounded_step'] = dict(
+            tool='apalache-mc 0.58 (SMT)', obligations=sum(p['obligations'] for p in proofs), discharged=sum(p['discharged'] for p in proofs),
+            what='inductive invariant (partition bounds, 0 <= p <= size) of the integer length abstraction with the sizes SYMBOLIC; '
+                 'the abstraction is tied to the list-level specification by the refinement Assert in the MC modules (checked by TLC on every transition)',
+            modules=proofs)
     vlib.write_evidence(prop, tier, seed, LIST_PROPS.get(prop, {}).get('level', 'model_checking'), coverage, time.time() - t0, len(new), ASSUMPTIONS)
     for d in new[:10]:
         rp = write_replay(prop, dict(d, property=prop))
@@ -293,8 +312,13 @@ def run_c17(tier, seed, replay=None):
             job['tag'] = inst['name']
             drv, st = vlib.tlc_model_check(kd['mc'], inst['mc'], work.dir, inst['name'] + '-mc', emit=True)
             job['tlc'], job['driver'], job['runs'] = st, drv, {}
+            modes = [('', [])]
+            if job['kind'] in ('raw', 'slru', 'wtlfu'):
+                # the same drivers with a clone taken in every state (clone must not consult hash-map iteration order)
+                modes.append(('c', ['--clone', '--no-ro']))
             for (h, shuffle) in runs:
-                extra = ['--hasher', h, '--tok']
+              for (mname, mflags) in modes:
+                extra = ['--hasher', h, '--tok'] + mflags
                 ms = inst.get('max_states')
                 if tier == 'quick':
                     ms = min(ms or 10**9, 1200)
@@ -304,21 +328,24 @@ def run_c17(tier, seed, replay=None):
                     extra += ['--random', '%d,%d,%d' % (inst['random'][0], inst['random'][1], seed + 1)]
                 if shuffle:
                     extra += ['--shuffle', str(shuffle)]
-                prefix = work.path('%s.%s%d.trace' % (inst['name'], h, shuffle))
+                if mname and tier == 'quick':
+                    extra += ['--max-states', '400']       # (a later --max-states overrides an earlier one)
+                prefix = work.path('%s.%s%d%s.trace' % (inst['name'], h, shuffle, mname))
                 r = vlib.harness_exec(binary, job['kind'], inst['cfg'], inst['keys'], drv, prefix, flags=[], extra=extra, shard=15000)
                 if r['rc'] != 0:
                     raise ToolError('harness failed on %s: %s' % (inst['name'], r['stderr']))
-                job['runs'][(h, shuffle)] = dict(prefix=prefix, shards=vlib.list_shards(prefix), exec=r)
-            job['exec'] = job['runs'][('std', 0)]['exec']
-            job['shards'] = job['runs'][('std', 0)]['shards']
+                job['runs'][(h, shuffle, mname)] = dict(prefix=prefix, shards=vlib.list_shards(prefix), exec=r)
+            job['modes'] = [m for m, _ in modes]
+            job['exec'] = job['runs'][('std', 0, '')]['exec']
+            job['shards'] = job['runs'][('std', 0, '')]['shards']
             return job
         vlib.pool_map(gen, jobs, 4)
         cfg = work.path('pair.cfg')
         vlib.write_cfg(cfg, 'TSpec', {}, post='Accepted')
         tasks = []
         for j in jobs:
-            for (a, b, sh) in C17_PAIRS:
-                ra, rb = j['runs'][(a, 0)], j['runs'][(b, sh)]
+            for (a, b, sh, mname) in [(a, b, sh, m) for (a, b, sh) in C17_PAIRS for m in j['modes']]:
+                ra, rb = j['runs'][(a, 0, mname)], j['runs'][(b, sh, mname)]
                 n = max(len(ra['shards']), len(rb['shards']))
                 for i in range(n):
                     tasks.append((j, a, b, sh, ra['shards'][i] if i < len(ra['shards']) else None,
